@@ -114,6 +114,8 @@ void wrap_lines(util::StringPiece const &line, wrap_options const &options, std:
 
 	while (pos < length) {
     size_t char_len;
+		// Byte position where the current character starts
+		size_t pos_char = pos;
 		char32_t character = util::DecodeUTF8(line.data() + pos, line.end(), &char_len);
     pos += char_len;
 
@@ -136,6 +138,11 @@ void wrap_lines(util::StringPiece const &line, wrap_options const &options, std:
 
 		// Last resort if we didn't break on a delimiter: just chop where we are
 		size_t pos_cut = pos;
+
+		// A multi-byte character can take us past column_width: chop in front of
+		// it, unless it is the only character of this piece.
+		if (pos - pos_last_cut > options.column_width && pos_char > pos_last_cut)
+			pos_cut = pos_char;
 
 		// Find a more ideal break point by looking back for a delimiter
 		for (int32_t const &pos_delimiter : pos_delimiters) {
@@ -164,6 +171,10 @@ void wrap_lines(util::StringPiece const &line, wrap_options const &options, std:
 			// we did a hard stop in the middle of a word, and we're not keeping
 			// the delimiters.
 			if (find_delimiter(options.delimiters, character) == not_found)
+				break;
+
+			// Same for a multi-byte delimiter that would be kept in the line.
+			if (options.keep_delimiters_in_lines && pos_next - pos_last_cut > options.column_width)
 				break;
 		}
 
